@@ -293,8 +293,9 @@ class TranslateNode(Node, TranslatableTag):
             raise TranslationKeyError(
                 f"unknown message variable {err}", token=self.token
             ) from err
-        except (ValueError, TypeError) as err:
-            raise TranslationValueError(str(err), token=self.token) from err
+        except (ValueError, TypeError, OverflowError, MemoryError) as err:
+            # Including a field width no string could have, like `%99999999999s`.
+            raise TranslationValueError(str(err) or "format error", token=self.token) from err
 
 
 class TranslateTag(Tag):
